@@ -1,7 +1,7 @@
 (* Request dispatcher shared by C01 and C02 (packet encoders, signed portions). *)
 From NDN Require Import Base.Prelude Base.Sexp Model.TlvVar Model.Name Model.Tlv Model.Packet Model.PacketEnc Model.PacketPtrs
-  Spec.StrictTlv Spec.SignedPortion Extract.TlvSexp.
-From NDN Require Generated.Schemas.
+  Spec.StrictTlv Spec.SignedPortion Extract.TlvSexp Model.SignerSizes.
+From NDN Require Generated.Schemas Generated.SignerSizes.
 Local Open Scope N_scope.
 
 Definition as_sig (s : sexp) : option (option sig_in) :=
@@ -60,5 +60,10 @@ Definition run (req : sexp) : sexp :=
   | SList [SNum 15; SBytes v] => s_res s_ptrs (ptrs_interest_with Generated.Schemas.ndn_format_0_3_InterestPacketValue_layout v)
   | SList [SNum 16; SBytes v] => s_res s_ptrs (ptrs_data_with Generated.Schemas.ndn_format_0_3_DataPacketValue_layout v)
   | SList [SNum 14; SBytes w; t] => or_bad (odo x <- as_num t ;; Some (s_res SBytes (parse_and_check_tl w x)))
+  (* the size contract of the signers (Model/SignerSizes.v, Generated/SignerSizes.v) *)
+  | SList [SNum 20; b] => or_bad (odo b' <- as_num b ;; Some (SNum (Generated.SignerSizes.ecdsa_reserved b')))
+  | SList [SNum 21; r; s] => or_bad (odo r' <- as_num r ;; odo s' <- as_num s ;; Some (SNum (der_sig_len r' s')))
+  | SList [SNum 22] => SList [SNum Generated.SignerSizes.ed25519_reserved; SNum Generated.SignerSizes.hmac_reserved;
+                              SNum Generated.SignerSizes.digest_reserved; SNum Generated.SignerSizes.null_reserved]
   | _ => s_bad_request
   end.
